@@ -9,20 +9,24 @@ PROP = dict(
     trivial=_trivial,
     impl_timeout=1500,
     rule='direct oracle: live positions of sizes 3..8 (opening plies 0..3, middle game, 1-2 plies before the end of road-racing '
-         'playouts, low reserves incl. "mover has only capstones left", constructed boards, consecutive positions of one game) x '
+         'playouts, low reserves incl. "mover has only capstones left", constructed boards, tall central stacks with > 500 generated moves, '
+         'consecutive positions of one game) x '
          'players {MinimaxAI Analyze / randomised GetMove / AnalyzeAll over the option lattice (NoSort, TableMem none/1-entry/tiny/'
          'small/default, NoNullMove, NoReduceSlides, MultiCut, DedupSymmetry, precise, depth 1..4 (to 6 thorough) and 7..15 cut by '
-         'MaxEvals or a deadline, RandomizeWindow, seeds, two evaluators) with engines REUSED over 1..5 calls; OpeningPlayer on '
+         'MaxEvals or a deadline, RandomizeWindow, seeds, two evaluators) with engines REUSED over 1..5 calls and, for a third of the table configurations, SIMULATED HASH '
+         'COLLISIONS (table entries with the hash of the root / of its children holding an illegal move, planted through an overlay '
+         'accessor); OpeningPlayer on '
          'every prefix position of the repository book lines (read from cmd/internal/playtak/book.go) and of synthetic books, in '
          'all 8 images built by an independent symmetry transform, every stored reply enumerated; MonteCarloAI with both policies, '
-         'ForceCorners on/off, limits 20-50 ms and 100 ms}. CASE lines = model correspondence: P = legal move set of every '
+         'ForceCorners on/off, limits 20-50 ms and 100 ms, plus a sweep of ForceCorners over every first stone in a corner}. CASE lines = model correspondence: P = legal move set of every '
          'position used (model: all_moves filtered by mv_fixed, game_over), M = every (position, returned move) pair of the '
          'deterministic players judged by mv_fixed. non-trivial = all; distinct = distinct input strings',
     assumptions=['alpha-beta budgets allow at least the depth-1 iteration (a deadline run that was cancelled before is counted, not judged)',
                  'Monte-Carlo limit allows at least one playout (a run with a limit < 100 ms that did none is repeated once with 400 ms)',
                  'RandomizeScale is left at its default (the option lattice of the property)',
                  'constructed positions have ply >= 2 (ply 0/1 with pieces on the board cannot arise)',
-                 'Monte-Carlo answers are wall-clock dependent: they are judged by the oracle but not written as CASE lines'],
+                 'Monte-Carlo answers and deadline-limited alpha-beta answers are wall-clock dependent: they are judged by the oracle but not written as CASE lines',
+                 'simulated collisions never make a ROOT entry with depth >= Cfg.Depth (Analyze returns such a seed unvalidated; reachable only through a true 64-bit hash collision, DESIGN 5.4 NoCollisionOn)'],
 )
 
 MANIFEST = dict(
